@@ -5,7 +5,7 @@ From Centro Require Import Base.Sx Base.EmdBase Spec.Emd Model.Emd Model.EmdCert
   Proofs.EmdDuality Proofs.EmdScaled Proofs.EmdModel Proofs.EmdSsp Proofs.EmdCertModel Proofs.EmdMetric
   Proofs.EmdFuel Proofs.EmdHeap Proofs.EmdTransform Proofs.EmdHeapPos Proofs.EmdHeapOrd Proofs.EmdPotential
   Proofs.EmdMcfCert Proofs.EmdHeapMem Proofs.EmdDijkstra Proofs.EmdDijkstraInit
-  Proofs.EmdTight Proofs.EmdGhost Proofs.EmdCspPost Proofs.EmdPairAddr Proofs.EmdGraphShape.
+  Proofs.EmdTight Proofs.EmdGhost Proofs.EmdCspPost Proofs.EmdPairAddr Proofs.EmdGraphShape Proofs.EmdAugment.
 From Centro Require Import Model.EmdMcf.
 Import ListNotations.
 Open Scope Z_scope.
@@ -416,3 +416,47 @@ Print Assumptions C10_emd_graph_no_companions_except_A.
    the ghost potentials and true distances.  Then augment_list_surgery (with C10_augment_pair_addressing,
    C10_dijkstra_prev_tight, C10_mcf_reduced_cost_ghost_invariant), C10_mcf_model_optimal via
    C10_mcf_cert_optimal, "Fail unreachable", read_back_bookkeeping, C10_model_total. *)
+
+(* ------------------------------------------------------------------------------------------------
+   Round 8.  augment_list_surgery / C10_ssp_reduced_costs_nonneg (BOTH halves) under the companion
+   flag — Full for one iteration of the line-level solver: if the state carries ghost potentials, all
+   residual arcs have reduced cost >= 0 and no capacity is negative, and the step's run-time flag is
+   clear (every hop of the augmenting path joins two nodes connected by exactly one arc and ends at a
+   reachable node; no capacity went negative), then after compute_shortest_path + scan_delta +
+   augment all residual arcs again have reduced cost >= 0 (the backward arcs opened by the
+   augmentation are tight: reduced cost 0).  The model records the flag (Model.EmdMcf.step_flag /
+   mcf_iter_f / entry_emdlf); the harness counts it in every run: never set. *)
+Theorem C10_ssp_reduced_costs_nonneg_if_flag_clear : forall nv c st st', length c = nv ->
+  length (m_e st) = nv -> length (m_d st) = nv -> length (m_prev st) = nv ->
+  (exists pi, ghost nv c pi (m_rf st) (m_rb st)) ->
+  RAok nv (m_rf st) (m_rb st) -> caps_ok (m_rb st) = true ->
+  mcf_step st = MMore st' -> step_flag st = false ->
+  RAok nv (m_rf st') (m_rb st') /\ caps_ok (m_rb st') = true.
+Proof. exact step_keeps_RA. Qed.
+Print Assumptions C10_ssp_reduced_costs_nonneg_if_flag_clear.
+
+(* its two list-level ingredients *)
+Theorem C10_augment_positive_caps : forall fuel prev k to delta e x rb e' x' rb', 0 <= delta ->
+  augment fuel prev k to delta e x rb = Some (e', x', rb') ->
+  forall u v rc cap', In (v, rc, cap') (nth u rb' []) -> 0 < cap' ->
+  (exists cap, In (v, rc, cap) (nth u rb []) /\ 0 < cap) \/ In (v, u) (hops fuel prev k to).
+Proof. exact augment_positive_caps. Qed.
+Print Assumptions C10_augment_positive_caps.
+
+Theorem C10_hop_entry_zero : forall nv c, length c = nv ->
+  forall pi rf rb from to, ghost nv c pi rf rb -> (from < nv)%nat -> (to < nv)%nat ->
+  pair_count rf from to = 1%nat ->
+  (In (to, 0) (nth from rf []) \/ exists cap, In (to, 0, cap) (nth from rb [])) ->
+  forall rc cap, In (from, rc, cap) (nth to rb []) -> rc = 0.
+Proof. exact hop_entry_zero. Qed.
+Print Assumptions C10_hop_entry_zero.
+
+(* STILL OPEN (named), in the order of the goal:
+   mcf_run_invariant          — lift the step theorem to mcf_iter_f (lengths of d / prev kept by
+                                compute_shortest_path, flag false for the whole run);
+   x_caps_consistent          — capacity of a backward entry = net flow of its arc in x, so that
+                                "flow > 0 => backward arc residual => reduced cost <= 0";
+   C10_mcf_model_optimal_if_A_idle — instantiate C10_mcf_cert_optimal with the ghost potentials;
+   mcf_no_fail_if_flag_clear  — Done or the flag;
+   read_back_bookkeeping      — through rename_cc / red_c to emd_spec (C10_model_emd_correct_if_A_idle);
+   artificial_node_unused     — the flag is never set on the graphs of emd_hat_impl.hpp. *)
